@@ -68,6 +68,17 @@ func collectFieldUses(g *refGraph, fns map[*types.Func]bool) []fieldUse {
 }
 
 func runC01(p *Prog, r *Result) {
+	r.Rule("R01d", "printer queues (pending here-documents, comments, levels) are not truncated in place while a local saved from them is still read: a clobbered queue prints another here-document's body", 2)
+	if pk := p.Pkg("syntax"); pk != nil {
+		if printerT := lookupType(pk, "Printer"); printerT != nil {
+			pst := printerT.Underlying().(*types.Struct)
+			isPrinterField := map[*types.Var]bool{}
+			for i := 0; i < pst.NumFields(); i++ {
+				isPrinterField[pst.Field(i)] = true
+			}
+			checkTruncationAliasing(p, r, pk, "syntax", "R01d", func(fv *types.Var) bool { return isPrinterField[fv] })
+		}
+	}
 	si, err := newSyntaxInfo(p)
 	if err != nil {
 		r.Fatalf("%v", err)
@@ -458,6 +469,8 @@ func inDefaultOfRootSwitch(g *FGraph, b *FBlock) bool {
 }
 
 var c01Controls = []Control{
+	{Name: "pending-hdocs-truncated-under-alias", Rule: "R01d", WantKey: "flushHeredocs#p.pendingHdocs truncated", File: "syntax/printer.go",
+		Mutate: ctlReplaceAnywhere("p.pendingHdocs = nil\n", "p.pendingHdocs = p.pendingHdocs[:0]\n")},
 	{Name: "wordPart-drop-ExtGlob-case", Rule: "R01a", WantKey: "wordPart#switch WordPart/ExtGlob", File: "syntax/printer.go",
 		Mutate: ctlReplace("Printer.wordPart", "case *ExtGlob:\n\t\tp.w.WriteString(wp.Op.String())\n\t\tp.writeLit(wp.Pattern.Value)\n\t\tp.w.WriteByte(')')", "", 0)},
 	{Name: "arithm-drop-FlagsArithm-case", Rule: "R01a", WantKey: "arithmExprRecurse#switch ArithmExpr/FlagsArithm", File: "syntax/printer.go",
